@@ -63,7 +63,8 @@ def check(prog, body, cfg, out, size, placement, varkind):
             why = "rejected, but not as an uninitialised slot read: %s: %s" % (type(r).__name__, str(r)[:120])
         elif named is None:
             why = "the error does not identify a load expression of a program variable"
-        elif named not in bad:
+        elif named not in bad and named not in gen_init.uninit_vars(body, lenient=True)[0]:
+            # (a load sitting in dead code after a Return/Break/Continue may legitimately be the one named first)
             why = "the error names a load of %r, but only %s can be read before being written" % (named, sorted(bad))
     if why:
         out["violations"].append({
